@@ -49,6 +49,13 @@ def bank_strategy(max_tokens, disc):
                 toks[k]["n"], toks[n]["n"] = toks[n]["n"], toks[k]["n"]
             flat = {"l": "CNP", "e": "--", "lem": "--", "m": "--", "c": inner}
             pool.append({"sid": 1, "root": {"l": "VROOT", "e": "--", "lem": "--", "m": "--", "c": [flat] + outer}})
+        if disc > 0 and draw(st.integers(0, 9)) == 0:
+            # a 'comb': two constituents covering the odd and the even tokens (fan-outs 10 and more: two-digit fan-outs)
+            n = draw(st.integers(19, 23))
+            toks = [{"w": draw(st.sampled_from(WORDS)), "p": draw(st.sampled_from(["NN", "VB", "ART"])), "n": i + 1, "e": "--", "lem": "--", "m": "--"} for i in range(n)]
+            odd = {"l": "X", "e": "--", "lem": "--", "m": "--", "c": toks[0::2]}
+            even = {"l": "NP", "e": "--", "lem": "--", "m": "--", "c": toks[1::2]}
+            pool.append({"sid": 1, "root": {"l": "VROOT", "e": "--", "lem": "--", "m": "--", "c": [odd, even]}})
         picks = draw(st.lists(st.integers(0, len(pool) - 1), min_size=1, max_size=5))
         bank = [pool[i] for i in picks]
         # counts with two and three digits
